@@ -34,6 +34,7 @@ sys.set_int_max_str_digits(0)  # exact rationals with tens of thousands of digit
 LEVEL = "proof"
 TOL = 1e-8  # the property's own tolerance
 PROPS = "TTProofs/Props/C03.lean"
+COMPANIONS = ["TTProofs/Props/C03_Grad.lean", "TTProofs/Props/C03_Trees.lean"]
 
 # ----------------------------------------------------------------------------------------------
 # trees (built programmatically: newick text -> torchtree's own parse_tree)
@@ -916,7 +917,14 @@ def run(ck: Check):
     ]
     ck.trusted += ["torch matmul/max/log/cat/broadcasting", "dendropy newick parser (trees are built through parse_tree)",
                    "Lean Rat/Nat (GMP) arithmetic in the compiled driver", "mpmath (cross-check of the reference)"]
-    ok, broken = ck.lean_side({}, ["TTModel.C03_Rescale", "TTProofs.Props.C03", "drv_c03"], PROPS)
+    ok, broken = ck.lean_side({}, ["TTModel.C03_Rescale", "TTProofs.Props.C03", "TTProofs.Props.C03_Grad",
+                                   "TTProofs.Props.C03_Trees", "drv_c03"], PROPS)
+    if ok:  # companion theorem files: same-derivative corollaries; theorems for every tree (no wf hypothesis)
+        for extra in COMPANIONS:
+            n_before = len(ck.obligations)
+            if not ck.audit(extra, leanchecker=False):
+                ok = False
+                broken += [o["name"] + ": " + o.get("detail", "") for o in ck.obligations[n_before:] if not o["ok"]]
     drv = ck.driver("drv_c03")
     fails = []
     try:
